@@ -217,7 +217,7 @@ def variant_attr_items(v):
 
 
 def print_variant(v, split, with_strum=True, indent="    "):
-    docs = ["%s#[doc = %s]" % (indent, rs_str(d)) for d in v["docs"]]
+    docs = ["%s#[doc = %s]" % (indent, lit_str(d, v.get("litform", 0))) for d in v["docs"]]      # explicit doc attributes may be raw strings / escapes too
     # #[doc(..)] LIST attributes (hidden, alias) are not documentation text; they may stand before / between / after the doc lines
     for pos, x in v.get("docattrs", []):
         docs.insert(min(pos, len(docs)), indent + x)
